@@ -50,8 +50,13 @@ def main():
     with vlib.Lock():
         # ---- 1. proof obligations against the regenerated tables
         terrs = vlib.regenerate()
+        pfiles0 = cfg["coq"] if isinstance(cfg["coq"], list) else [cfg["coq"]]
+        relevant = vlib.coq_deps(pfiles0 + ["ModelApi.v"])
         for f, e in terrs.items():
-            problems.append({"kind": "translator", "what": f, "detail": e[-600:]})
+            if f in relevant:
+                problems.append({"kind": "translator", "what": f, "detail": e[-600:]})
+            else:
+                cov.setdefault("translator_failures_not_relevant_to_this_property", []).append(f)
         pfiles = cfg["coq"] if isinstance(cfg["coq"], list) else [cfg["coq"]]
         theorems, closed, axioms, all_ok, all_pok = [], 0, [], True, True
         for pf in pfiles:
